@@ -521,6 +521,7 @@ _COMPOUND_EXTRA = {
 }
 
 
+MATCHED_CHECKS = (110, 114, 136, 171)
 COMPOUND_INFO: dict[int, tuple] = {}
 
 
@@ -840,9 +841,111 @@ def model_tie(ctx: Ctx, derived: dict) -> None:
         ctx.notes.append(f"model/CPython disagreement: {descr[i]}")
 
 
+def matcher_tie(ctx: Ctx, matched: dict, all_rules: list, built: bool) -> None:
+    """The translated check functions against the real ones: same trees reported, same message text, on the
+    real mypy nodes of every instance / neighbouring shape / compound operand of these checks and of random expressions."""
+    if not matched:
+        return
+    import importlib
+
+    import mypy.nodes as N
+    from ..harness import exprgen as G
+    from ..harness import to_coq as TC
+    rng = ctx.rng
+    srcs, seen = [], set()
+    for r in all_rules:
+        if r.code in matched and r.mode in ("expr", "cond") and not r.setup:
+            if r.lhs not in seen:
+                seen.add(r.lhs)
+                srcs.append(r.lhs)
+    names = {"x": "a", "y": "b", "z": "c", "x2": "n", "y2": "n", "c_": "a", "w_": "w", "l": "xs", "nums": "xs", "b2": "b"}
+    import re as _re
+    srcs = [_re.sub(r"\b([a-z_]+\d?)\b", lambda m: names.get(m.group(1), m.group(1)), s0) for s0 in srcs]
+    gen_ = G.Gen(rng)
+    while len(srcs) < ctx.budget(500, 6000):
+        e = gen_.expr(rng.choice([1, 2, 2, 3]))
+        s0 = G.unparse(e)
+        if s0 and s0 not in seen and "\n" not in s0:
+            seen.add(s0)
+            srcs.append(s0)
+            # the shapes these checks look for, built from random operands
+            a0, b0 = s0, G.unparse(gen_.expr(1)) or "a"
+            for shape in (f"({a0}) if ({a0}) else ({b0})", f"not not ({a0})", f"({a0}) if ({a0}) < ({b0}) else ({b0})", f"({b0}) if ({a0}) >= ({b0}) else ({a0})",
+                          f"({a0}) in [({b0})]", f"({a0}) not in (({b0}),)", f"({a0}) in {{({b0})}}", f"({a0}) if ({b0}) > ({a0}) else ({b0})"):
+                if rng.random() < 0.25 and shape not in seen:
+                    seen.add(shape)
+                    srcs.append(shape)
+    files, per = {}, 400
+    for fi in range(0, len(srcs), per):
+        lines = [G.PRELUDE, "w = 0", "async def _w() -> None:"]
+        for j, s0 in enumerate(srcs[fi:fi + per]):
+            lines.append(f"    P_{fi + j} = {s0}")
+        files[f"m{fi // per}.py"] = "\n".join(lines) + "\n"
+    found, errs, td = TC.harvest(files)
+    try:
+        loose = (N.ConditionalExpr, N.LambdaExpr, N.AwaitExpr, N.AssignmentExpr)
+        kinds = {110: N.ConditionalExpr, 136: N.ConditionalExpr, 114: N.UnaryExpr, 171: N.ComparisonExpr}
+        mods = {code: importlib.import_module(info["module"]) for code, info in matched.items()}
+        rows = []
+
+        def subnodes(n):
+            from .c02 import direct_children
+            out = []
+            for c in direct_children(n):
+                out.append(c)
+                out += subnodes(c)
+            return out
+        for (_f, pname), top in sorted(found.items(), key=lambda kv: int(kv[0][1][2:])):
+            for node in [top] + subnodes(top):
+                for code, cls in kinds.items():
+                    if code not in mods or not isinstance(node, cls):
+                        continue
+                    if any(isinstance(x, loose) for x in subnodes(node)):
+                        ctx.count("matcher:operand-outside-the-structural-fragment")
+                        continue
+                    errors: list = []
+                    try:
+                        mods[code].check(node, errors)
+                        real = [e.msg for e in errors]
+                    except Exception as ex:  # noqa: BLE001
+                        real = [f"<{type(ex).__name__}>"]
+                    rows.append((code, node, real))
+                    ctx.case(("matcher", code, srcs[int(pname[2:])][:80], node.line, node.column), nontrivial=bool(real),
+                             sample={"check": f"FURB{code}", "messages": real} if real and rng.random() < 0.02 else None)
+                    ctx.count(f"matcher:FURB{code}:{'reports' if real else 'silent'}")
+        if built and rows:
+            hdr = ("From Lib Require Import Base PyAst Equiv Stringify PyMatch.\nFrom P Require Import GenEquiv GenMatch.\nOpen Scope list_scope.\nSet Printing Width 100000.\n"
+                   "Definition same (a b : list string) := list_eqb String.eqb a b.\n")
+            shards, metas = [], []
+            for i in range(0, len(rows), 300):
+                chunk = rows[i:i + 300]
+                body = "Definition cs : list (list string * list string) := [\n" + ";\n".join(
+                    f"(map render (check_{code} {TC.expr(node)}), {coq.coq_list([coq.coq_str(m) for m in real])})" for code, node, real in chunk) + "].\n" \
+                    "Eval vm_compute in (fix go i l := match l with [] => [] | (m, r) :: t => if same m r then go (S i) t else i :: go (S i) t end) 0 cs.\n"
+                shards.append(body)
+                metas.append(chunk)
+            res = coq.eval_shards(ctx, "matchers", hdr, shards, timeout=900)
+            mism = []
+            for (rc, out, err), chunk in zip(res, metas):
+                vals = coq.parse_eval_values(out)
+                if rc != 0 or not vals:
+                    mism.append("coqc failed: " + err[-300:])
+                    continue
+                for i in [int(x) for x in vals[0].strip("[]").split(";") if x.strip()][:4]:
+                    code, node, real = chunk[i]
+                    mism.append(f"FURB{code} on `{str(node)[:60]}` line {node.line}: real {real}")
+            ctx.obligation("correspondence: translated check() of FURB110/114/136/171 (GenMatch.v, rendered with Lib/Stringify.v) = the real check functions on every harvested node",
+                           not mism, "; ".join(mism[:5]))
+            ctx.extra["matcher_tie_nodes"] = len(rows)
+    finally:
+        shutil.rmtree(td, ignore_errors=True)
+
+
 def run(ctx: Ctx) -> None:
     ctx.trusted_base += [
         "Coq 8.16.1 kernel",
+        "tools/vf/translate/matchers.py: typed symbolic translation of check() (match patterns, guards, f-string messages) into Gallina, fail-closed; tied to the real functions by the matcher correspondence",
+        "Lib/PySyn.v: evaluation of the pure fragment on syntax trees (uses Lib/PyEval.v's operations); literals and names are parameters",
         "Lib/PyEval.v: hand-written big-step model of the pure Python fragment the P1 rules use (tied to CPython by evaluating closed instances both ways)",
         "tools/vf/props/c01_rules.py: one executable instance per idiom; the replacement is taken from the message refurb prints",
         "CPython as the oracle of behaviour for every rule (exec of original and replacement on generated environments)",
@@ -859,7 +962,31 @@ def run(ctx: Ctx) -> None:
         gen["GenCasts"] = translate_casts(REPO)
     except Exception as e:  # noqa: BLE001
         ctx.obligation("translate FUNC_NAME_MAPPING (FURB123)", False, str(e))
-    b = coq.compile_props(ctx, gen, (["GenCasts"] if gen else []) + ["C01", "C01Heap"] + (["C01Tables"] if gen else []))
+    order = (["GenCasts"] if gen else []) + ["C01", "C01Heap"] + (["C01Tables"] if gen else [])
+    # the check functions themselves: FURB110/114/136/171 translated to matchers with message templates (GenMatch.v), with the
+    # translated is_equivalent (GenEquiv.v) and its soundness proof (C06Proofs.v) as their sameness guard
+    matched: dict[int, dict] = {}
+    try:
+        from ..translate.catalogue import catalogue
+        from ..translate.equiv import translate as translate_equiv
+        from ..translate.matchers import translate_check
+        cat = {c["code"]: c for c in catalogue(REPO) if c["prefix"] == "FURB"}
+        parts = ["(* generated from refurb/checks: check() of FURB110, 114, 136, 171 as matchers over PyAst with message templates *)",
+                 "From Lib Require Import Base PyAst Equiv Stringify PyMatch.", "From P Require Import GenEquiv.", "Open Scope list_scope.", ""]
+        for code in MATCHED_CHECKS:
+            info = cat[code]
+            parts.append(translate_check(Path(info["path"]), code, info["msg"]))
+            matched[code] = info
+        gen["GenEquiv"] = translate_equiv(REPO)
+        gen["C06Proofs"] = (coq.PROPS / "C06" / "C06Proofs.v").read_text()
+        gen["GenMatch"] = "\n".join(parts)
+        order += ["GenEquiv", "C06Proofs", "GenMatch", "C01Match"]
+    except Exception as e:  # noqa: BLE001
+        matched = {}
+        for k in ("GenEquiv", "C06Proofs", "GenMatch"):
+            gen.pop(k, None)
+        ctx.obligation("translate check() of FURB110/114/136/171 (matchers with message templates)", False, f"{type(e).__name__}: {e}")
+    b = coq.compile_props(ctx, gen, order)
     coq.record_build(ctx, b)
     from refurb.main import run_refurb
     from refurb.settings import Settings
@@ -1109,6 +1236,7 @@ def run(ctx: Ctx) -> None:
                                                       if (r.code, r.lhs) in MODEL_RULES and set(r.params.values()) <= MODEL_TYPES)
         model_tie(ctx, derived)
         heap_tie(ctx, derived)
+        matcher_tie(ctx, matched, ALL, b.files.get("GenMatch", {}).get("rc") == 0)
     finally:
         shutil.rmtree(td, ignore_errors=True)
     ctx.resolve_broken({"furb123_table_sound": "semantics:FURB123", "furb123_table_keys_unique": "semantics:FURB123", "translate FUNC_NAME_MAPPING (FURB123)": "semantics:FURB123"}, b.first_error)
